@@ -139,6 +139,9 @@ pub struct Truth {
     /// statement (public input) is the one that was proven?
     pub statement_unchanged: bool,
     pub pow_valid: bool,
+    /// the cheat is one that only the queries can detect and, for this query set, they cannot
+    /// (legitimately undetectable instance: no verdict is required)
+    pub undetectable_by_queries: bool,
 }
 
 impl Truth {
@@ -234,7 +237,7 @@ pub fn prove(params: &ToyParams, cheat: &Cheat) -> Result<Artifacts, String> {
     let bad_row = match cheat {
         Cheat::OodsEq { row } | Cheat::OodsLen { row } | Cheat::MerkleLie { row, .. } | Cheat::FriAdaptive { row }
         | Cheat::FriSize { row, .. } | Cheat::FriTrunc { row } | Cheat::FriLong { row } | Cheat::NqZero { row }
-        | Cheat::BlowupModP { row, .. } => Some(*row % n.max(1)),
+        | Cheat::BlowupModP { row, .. } => Some(*row % (n - 1).max(1)),
         _ => None,
     };
     let x0 = rng.felt();
@@ -429,14 +432,29 @@ pub fn prove(params: &ToyParams, cheat: &Cheat) -> Result<Artifacts, String> {
         Cheat::FriLong { .. } => Some(q_c.len() >> shape.sum_steps()),
         _ => None,
     };
-    let fri = FriProver::commit(shape.clone(), q_c.clone(), &mut tr, last_len);
+    // Cheats that decommit values chosen after the queries commit FRI to the DEEP function of the
+    // *shifted* composition columns h~_j = h_j + (lie_j - h_j(z^2)), which is low degree.
+    let delta = [h_open[0] - h_true[0], h_open[1] - h_true[1]];
+    let fri_input = match cheat {
+        Cheat::MerkleLie { .. } | Cheat::FriAdaptive { .. } => {
+            let tilde_nat: Vec<Felt> = (0..big_n).map(|k| deep_at(k, [a_nat[k], b_nat[k], c_nat[k], h0_nat[k] + delta[0], h1_nat[k] + delta[1]])).collect();
+            let mut t_c = tilde_nat;
+            intt(&mut t_c, log_eval);
+            if degree(&t_c).map(|d| d >= n).unwrap_or(false) {
+                return Err(format!("shifted DEEP function has degree {:?} >= n (prover self-check)", degree(&t_c)));
+            }
+            t_c
+        }
+        _ => q_c.clone(),
+    };
+    let fri = FriProver::commit(shape.clone(), fri_input, &mut tr, last_len);
     tlog.push(tr.clone());
 
     // --- proof of work ---------------------------------------------------------------------------
     let digest_bytes = tr.digest.to_bytes_be();
     let mut pow_bits = p.pow_bits;
     let mut n_queries = p.n_queries;
-    let security = Felt::from(p.n_queries * p.log_blowup as u64 + p.pow_bits as u64);
+    let mut security = Felt::from(p.n_queries * p.log_blowup as u64 + p.pow_bits as u64);
     let mut security_met = true;
     if let Cheat::LowSec = cheat {
         // keep pow_bits >= 20 (config validation) but lower the query count if possible,
@@ -444,7 +462,9 @@ pub fn prove(params: &ToyParams, cheat: &Cheat) -> Result<Artifacts, String> {
         if n_queries > 1 {
             n_queries -= 1;
         } else {
+            // nothing left to lower: the caller asks for one bit more than the proof provides
             pow_bits = 20;
+            security += Felt::ONE;
         }
         security_met = false;
     }
@@ -466,11 +486,31 @@ pub fn prove(params: &ToyParams, cheat: &Cheat) -> Result<Artifacts, String> {
     let (raw_queries, queries) = models::ref_queries(&mut tr, n_queries, log_eval);
 
     // --- decommitment ----------------------------------------------------------------------------
-    let (orig_vals, orig_auth) = orig_table.open(&queries);
+    let (mut orig_vals, orig_auth) = orig_table.open(&queries);
     let (inter_vals, inter_auth) = inter_table.open(&queries);
     let (mut comp_vals, comp_auth) = comp_table.open(&queries);
     let (_fri_values, mut fri_layers, _) = fri.open(&queries);
 
+    // FriTrunc: the truncated last layer is caught only if it disagrees with the fully folded
+    // function at some final-layer query point (exact oracle, as in C07)
+    let mut undetectable_by_queries = false;
+    if let Cheat::FriTrunc { .. } = cheat {
+        let n_inner = p.steps.len() - 1;
+        let full = &fri.coeffs[n_inner];
+        let mut pts: Vec<u64> = queries.clone();
+        let mut log_size = log_eval;
+        for st in &p.steps[1..] {
+            pts = pts.iter().map(|q| q >> st).collect();
+            pts.dedup();
+            log_size -= st;
+        }
+        let wl = models::subgroup_generator(log_size);
+        undetectable_by_queries = !pts.iter().any(|q| {
+            let yv = wl.pow(bitrev(*q, log_size) as u128);
+            models::eval_poly(full, yv) != models::eval_poly(&fri.last_layer, yv)
+        });
+    }
+    let mut lie_in_original = false;
     let mut columns_low_degree = true; // committed columns are interpolants of degree < n by construction
     let mut params_sound = true;
     let mut statement_unchanged = true;
@@ -478,34 +518,67 @@ pub fn prove(params: &ToyParams, cheat: &Cheat) -> Result<Artifacts, String> {
 
     match cheat {
         Cheat::MerkleLie { table, .. } => {
-            // choose composition (or trace) cells at queried rows so that the DEEP value equals an
-            // honest-looking low-degree function: here the zero polynomial would need FRI to be
-            // consistent, so instead keep FRI honest for q_c_lie := DEEP computed with the *lied*
-            // cells. Simplest consistent lie: alter the decommitted h0 cell at each query so the
-            // DEEP value equals the committed FRI input (which was computed from the true cells
-            // and the lied OODS values => not low degree). Instead we lie the other way round:
-            // decommit values that differ from the committed table.
-            let which = *table % 3;
-            match which {
-                0 => {
-                    for v in comp_vals.iter_mut().step_by(2) {
-                        *v += Felt::ONE;
-                    }
+            if *table % 2 == 0 {
+                // decommit the shifted composition cells (the committed table holds the true ones)
+                for (i, v) in comp_vals.iter_mut().enumerate() {
+                    *v += delta[i % 2];
                 }
-                1 => {
-                    // handled below on orig/inter copies
-                }
-                _ => {}
+            } else {
+                // keep the composition truthful, lie in trace column a instead so that the DEEP
+                // value at each query equals the committed low-degree function
+                lie_in_original = true;
             }
-            let _ = which;
         }
         Cheat::FriAdaptive { .. } => {
-            // bogus authentication paths on every inner layer
-            for (_, auth) in fri_layers.iter_mut() {
-                for a in auth.iter_mut() {
-                    *a += Felt::ONE;
+            // All trace/composition cells are decommitted truthfully, so the FRI input values at the
+            // queries are those of the true (high-degree) DEEP function. Layer-0 sibling leaves are
+            // chosen now, after the queries are known, so that every fold lands on the committed
+            // low-degree function; the authentication paths cannot match any more.
+            let step = p.steps[1];
+            let w = 1usize << step;
+            let wg = models::subgroup_generator(log_eval);
+            let mut leaves = Vec::new();
+            let mut cosets: Vec<u64> = queries.iter().map(|q| q >> step).collect();
+            cosets.dedup();
+            for c in &cosets {
+                let idxs: Vec<u64> = (0..w as u64).map(|j| c * w as u64 + j).collect();
+                let us: Vec<Felt> = idxs.iter().map(|i| wg.pow(bitrev(*i, log_eval) as u128)).collect();
+                let queried: Vec<bool> = idxs.iter().map(|i| queries.binary_search(i).is_ok()).collect();
+                let mut vals: Vec<Felt> = idxs
+                    .iter()
+                    .zip(queried.iter())
+                    .map(|(i, q)| if *q { deep_nat[bitrev(*i, log_eval) as usize] } else { fri.layer_evals[0][*i as usize] })
+                    .collect();
+                if let Some(free) = queried.iter().rposition(|q| !*q) {
+                    // fold weights: F(v) = 2^s * sum_m b^m coeff_m(interpolant of v)
+                    let fold = |v: &[Felt]| -> Felt {
+                        let cf = models::lagrange_interpolate(&us, v);
+                        let mut acc = Felt::ZERO;
+                        let mut bp = Felt::ONE;
+                        for c in cf {
+                            acc += bp * c;
+                            bp *= fri.eval_points[0];
+                        }
+                        acc * models::pow2(step as u64)
+                    };
+                    let y = us[0].pow(w as u128);
+                    let target = models::eval_poly(&fri.coeffs[1], y);
+                    let mut unit = vec![Felt::ZERO; w];
+                    unit[free] = Felt::ONE;
+                    let w_free = fold(&unit);
+                    vals[free] = Felt::ZERO;
+                    let rest = fold(&vals);
+                    if w_free != Felt::ZERO {
+                        vals[free] = (target - rest) * models::inv(w_free);
+                    }
+                }
+                for (v, q) in vals.iter().zip(queried.iter()) {
+                    if !*q {
+                        leaves.push(*v);
+                    }
                 }
             }
+            fri_layers[0].0 = leaves;
         }
         Cheat::Splice => {
             public_input.main_page.0[1].value += Felt::ONE;
@@ -525,6 +598,16 @@ pub fn prove(params: &ToyParams, cheat: &Cheat) -> Result<Artifacts, String> {
         _ => {}
     }
     let _ = &mut columns_low_degree;
+    if lie_in_original {
+        for (qi, q) in queries.iter().enumerate() {
+            let k = bitrev(*q, log_eval) as usize;
+            let num = (dc[5] * delta[0] + dc[6] * delta[1]) * iz2[k];
+            let den = dc[0] * iz[k] + dc[1] * igz[k];
+            if den != Felt::ZERO {
+                orig_vals[2 * qi] += num * models::inv(den);
+            }
+        }
+    }
 
     // --- assemble ----------------------------------------------------------------------------------
     let vcfg = |h: u64| vector::config::Config { height: Felt::from(h), n_verifier_friendly_commitment_layers: Felt::from(p.n_friendly) };
@@ -597,6 +680,7 @@ pub fn prove(params: &ToyParams, cheat: &Cheat) -> Result<Artifacts, String> {
         security_met,
         statement_unchanged,
         pow_valid,
+        undetectable_by_queries,
     };
     Ok(Artifacts { proof, truth, params: p.clone(), security, queries, raw_queries, transcript_log: tlog })
 }
